@@ -95,6 +95,44 @@ int main(int argc, char** argv) {
       }
     }
   }
+  // ---- histories on one object: every sequence of up to 3 grid-changing operations, bracket lookups after each of them.
+  // The grid an operation leaves must be the one the same operation leaves on a fresh object (differential oracle), and the
+  // lookups must answer for the CURRENT grid whatever was looked up before.
+  {
+    enum { H_LIN01, H_LIN35, H_LOG, H_USER1, H_USER3, H_MOVE_USER2, H_MOVE_LIN, H_MOVECTOR, N_H };
+    const char* HN[] = {"Set_xrange(0,1,lin)", "Set_xrange(-3,5,lin)", "Set_xrange(1,1e4,log)", "Set_xrange(quadratic)", "Set_xrange(clustered)", "s=move(other with geometric grid)", "s=move(other with Set_xrange(2,2+1e-9,lin))", "s=S(move(s))"};
+    auto user = [](unsigned nx, int which) { std::vector<double> g(nx); for (unsigned i = 0; i < nx; i++) g[i] = which == 1 ? i * i * 0.37 - 2.0 : (which == 2 ? std::pow(1.7, (double)i) * 1e-2 : (i == 0 ? -5.0 : (i + 1 == nx ? 100.0 : 1.0 + 1e-3 * i))); return g; };
+    auto apply = [&](std::unique_ptr<S>& s, int op, unsigned nx, bool warm_other) {
+      switch (op) {
+        case H_LIN01: s->Set_xrange(0, 1, "lin"); break; case H_LIN35: s->Set_xrange(-3, 5, "lin"); break; case H_LOG: s->Set_xrange(1, 1e4, "log"); break;
+        case H_USER1: s->Set_xrange(user(nx, 1)); break; case H_USER3: s->Set_xrange(user(nx, 3)); break;
+        case H_MOVE_USER2: { S o(nx); o.Set_xrange(user(nx, 2)); if (warm_other) { (void)o.Get_i(o.Get_x(nx - 1)); (void)o.Get_i(o.Get_x(0)); } *s = std::move(o); } break;
+        case H_MOVE_LIN: { S o(nx); o.Set_xrange(2, 2 + 1e-9, "lin"); if (warm_other) (void)o.Get_i(2 + 0.5e-9); *s = std::move(o); } break;
+        case H_MOVECTOR: { std::unique_ptr<S> n(new S(std::move(*s))); s = std::move(n); } break;
+      }
+    };
+    std::vector<unsigned> NX = ar.reduced ? std::vector<unsigned>{2, 5} : std::vector<unsigned>{2, 3, 5, 9, 17};
+    for (unsigned nx : NX) for (int len = 1; len <= 3; len++) {
+      long total = 1; for (int i = 0; i < len; i++) total *= N_H;
+      for (long code = 0; code < total; code++) {
+        int ops[3]; long c = code; for (int i = 0; i < len; i++) { ops[i] = (int)(c % N_H); c /= N_H; }
+        if (ops[0] == H_MOVECTOR) continue;   // a fresh object has no grid of its own worth moving
+        count("evaluations"); count("grid_histories"); count("states"); distinct(ref::fnv(ops, sizeof(int) * len, nx * 131 + len));
+        std::unique_ptr<S> s(new S(nx)); std::string hn;
+        int last_grid_op = -1;
+        for (int i = 0; i < len; i++) {
+          apply(s, ops[i], nx, true); hn += (i ? " ; " : "") + std::string(HN[ops[i]]); count("transitions");
+          if (ops[i] != H_MOVECTOR) last_grid_op = ops[i];
+          std::unique_ptr<S> f(new S(nx)); apply(f, last_grid_op, nx, false);
+          std::vector<double> x = s->Get_xrange(), want = f->Get_xrange();
+          std::string ctx = "{\"nx\":" + std::to_string(nx) + ",\"history\":" + jstr(hn) + "}";
+          bool same = x.size() == want.size(); for (size_t k = 0; same && k < x.size(); k++) if (!ref::biteq(x[k], want[k]) || !ref::biteq(x[k], s->Get_x(k))) same = false;
+          if (!same) { violation("grid-history:nodes-differ-from-fresh-object", "{\"case\":" + ctx + ",\"got\":" + jarr(x) + ",\"fresh\":" + jarr(want) + "}"); break; }
+          lookups(*s, x, "history", ctx);
+        }
+      }
+    }
+  }
   finish();
   return 0;
 }
